@@ -365,9 +365,13 @@ def rule_close_code_reason(ctx):
     et = ctx.program.func("autobahn.util.encode_truncate")
     ctx.analysed(et)
     src_ok = {"slice": False, "ignore": False, "reencode": False, "guard": False}
+    # the encoded text: the local(s) assigned the result of an .encode() call (whatever they are called); `limit` is the second parameter
+    enc_names = {t_.id for n in walk_no_defs(et.node) if isinstance(n, ast.Assign) and isinstance(n.value, ast.Call) and isinstance(n.value.func, ast.Attribute)
+                 and n.value.func.attr == "encode" for t_ in n.targets if isinstance(t_, ast.Name)}
+    lim_name = et.params()[1]
     for n in walk_no_defs(et.node):
         if isinstance(n, ast.Subscript) and isinstance(n.slice, ast.Slice) and n.slice.lower is None and \
-                isinstance(n.slice.upper, ast.Name) and n.slice.upper.id == "limit" and n.slice.step is None:
+                isinstance(n.slice.upper, ast.Name) and n.slice.upper.id == lim_name and n.slice.step is None:
             src_ok["slice"] = True
         if isinstance(n, ast.Call) and isinstance(n.func, ast.Attribute) and n.func.attr == "decode":
             args = [a.value for a in n.args if isinstance(a, ast.Constant)] + [k.value.value for k in n.keywords if isinstance(k.value, ast.Constant)]
@@ -375,7 +379,7 @@ def rule_close_code_reason(ctx):
                 src_ok["ignore"] = True
         if isinstance(n, ast.If):
             at = norm.atoms(n.test, True)
-            if ("lt", ("e", "limit"), ("e", "len(s)"), True) in at:
+            if any(("lt", ("e", lim_name), ("e", f"len({nm_})"), True) in at for nm_ in enc_names):
                 src_ok["guard"] = True
                 for m in ast.walk(n):
                     if isinstance(m, ast.Assign) and isinstance(m.value, ast.Call) and isinstance(m.value.func, ast.Attribute) \
